@@ -159,7 +159,13 @@ def run_grammar(case, rec):
                           None if geometry is None else geometry.wkt)
             elif accepted:
                 nan = any(np.isnan(v) for v in values)
-                same = (not nan) and geometry.equals(box(*values)) and tuple(geometry.bounds) == (
+                # (a box of zero width or height is a degenerate polygon, for which GEOS' `equals` is false even against
+                # itself: compare the vertex sets then)
+                reference = box(*values)
+                same_shape = geometry.equals(reference) or (
+                    reference.area == 0 and geometry.geom_type == 'Polygon'
+                    and set(geometry.exterior.coords) == set(reference.exterior.coords))
+                same = (not nan) and same_shape and tuple(geometry.bounds) == (
                     min(values[0], values[2]), min(values[1], values[3]), max(values[0], values[2]), max(values[1], values[3]))
                 if nan:
                     rec.step()
